@@ -1,2 +1,2 @@
--- stub: replaced by the real driver for model DataLog (imports Pyrtma.Drv.DataLog)
-def main : IO Unit := pure ()
+import Pyrtma.Drv.DataLog
+def main : IO Unit := Pyrtma.Drv.DataLog.main
